@@ -39,13 +39,14 @@ echo "$out" | grep -A3 -m1 '^VIOLATION' | cut -c1-400 > $dst/first_violation.txt
 python3 - "$id" "$k" "$clean_rc" "$mut_rc" "$suite" "$caught" "$dir" "$tests" "$tier" "$race" <<'PY'
 import json,sys,os
 id,k,clean,mut,suite,caught,d,tests,tier,race=sys.argv[1:11]
+prev=json.load(open(f"/verif/seeded/{id}-{k}/meta.json")) if os.path.exists(f"/verif/seeded/{id}-{k}/meta.json") else {}
 notes=open(f"/verif/seeded/{id}-{k}/notes.md").read() if os.path.exists(f"/verif/seeded/{id}-{k}/notes.md") else ""
 meta={"breaks_property":id,"origin":"independent sub-agent given only the property text and a scratch worktree",
  "needs_to_manifest":"see notes.md (written by the sub-agent)",
  "confirmed":{"applies_and_builds":True,"repository_suite_with_change":suite,"demo_package_dir":d,"demo_tests":tests,
    "demo_on_clean_tree_exit":int(clean),"demo_with_change_exit":int(mut),"demo_flags":race},
  "checks_run":f"tools/mutant_run.sh patch.diff {tier} (scratch worktree of /repo HEAD via VERIF_REPO; property's own check first, all checks if it missed)",
- "caught_by":caught.split(),"tier":tier,"strengthened":os.environ.get("STRENGTHENED",""),"first_violation":open(f"/verif/seeded/{id}-{k}/first_violation.txt").read()}
+ "caught_by":caught.split(),"tier":tier,"strengthened":os.environ.get("STRENGTHENED","") or prev.get("strengthened",""),"first_violation":open(f"/verif/seeded/{id}-{k}/first_violation.txt").read()}
 json.dump(meta,open(f"/verif/seeded/{id}-{k}/meta.json","w"),indent=1)
 print("caught_by:",meta["caught_by"])
 PY
